@@ -1,4 +1,4 @@
-(* C06 -- edits change exactly the targeted lines.  text_effect (Model/Session.v) is the text effect of each editing operation on a committed state, expressed with the plain list operations insert_at / remove_idx / set_nth / insert_flagged; the theorems are their frame properties for every list and target: exactly one line is added (removing it gives the old list back), delete keeps exactly the lines that are neither the target nor its descendants, set_nth changes one line, regex insertion adds one copy per match.  insertion_preserves_parents: an inserted line leaves every existing parent link alone when (A) every later line it could capture is already shielded by a configuration line after the insertion point and (B) the comment exception of the line directly below does not flip -- F36 violates (A), F35 violates (B).  append_to_family: the observed index must satisfy atf_ok (PARTIAL: checked per case, see DESIGN.md 9.2). *)
+(* C06 -- edits change exactly the targeted lines.  text_effect (Model/Session.v) is the text effect of each editing operation on a committed state, expressed with the plain list operations insert_at / remove_idx / set_nth / insert_flagged; the theorems are their frame properties for every list and target: exactly one line is added (removing it gives the old list back), delete keeps exactly the lines that are neither the target nor its descendants, set_nth changes one line, regex insertion adds one copy per match.  insertion_preserves_parents: an inserted line leaves every existing parent link alone when (A) every later line it could capture is already shielded by a configuration line after the insertion point and (B) the comment exception of the line directly below does not flip -- F36 violates (A), F35 violates (B); insertion_after_family_preserves_parents: both hold whenever the line directly below the insertion point is an ordinary command shallower than the new line (or nothing follows), which is append_to_family's normal case.  append_to_family: the observed index must satisfy atf_ok (PARTIAL: checked per case, see DESIGN.md 9.2). *)
 From Coq Require Import List Arith Bool NArith ZArith. Require Import CCP.Lib.Res CCP.Lib.PyStr CCP.Model.Links CCP.Model.Parse CCP.Model.Family CCP.Model.Session CCP.Proofs.ParseProofs CCP.Proofs.SessionProofs CCP.Proofs.InsertProofs. Import ListNotations.
 
 Theorem C06_insert_at_length :
@@ -105,3 +105,8 @@ Theorem C06_parents_before_insertion :
   forall pre suf, spec_parents (pre ++ suf) = spec_parents pre ++ spec_from (rev pre) suf.
 Proof. exact parents_before_insertion. Qed.
 Print Assumptions C06_parents_before_insertion.
+
+Theorem C06_insert_before_shallower_command :
+  forall pre s suf, match suf with [] => True | l :: _ => cfg l = true /\ cmt l = false /\ ind l < ind s end -> shielded s [] suf = true /\ first_ok s (rev pre) suf = true.
+Proof. exact insert_before_shallower_command. Qed.
+Print Assumptions C06_insert_before_shallower_command.
